@@ -28,6 +28,29 @@ Disassembly of section .text:
    9:\tc3                   \tret
 """
 BIN_SRC = "\t.text\nf:\n\tpush %rbx\n\tpush %rbp\n\tcall g\n\tpop %rbp\n\tpop %rbx\n\tret\ng:\n\tret\n"
+# an object with two code sections: objdump restarts the addresses at 0 in each (identical match texts)
+DUP_LISTING = """
+d.o:     file format elf64-x86-64
+
+
+Disassembly of section .text.first:
+
+0000000000000000 <first>:
+   0:\t55                   \tpush   %rbp
+   1:\t48 89 e5             \tmov    %rsp,%rbp
+   4:\tc3                   \tret
+
+Disassembly of section .text.second:
+
+0000000000000000 <second>:
+   0:\t55                   \tpush   %rbp
+   1:\t48 89 e5             \tmov    %rsp,%rbp
+   4:\tc3                   \tret
+"""
+DUP_SRC = ("\t.section .text.first,\"ax\",@progbits\nfirst:\n\tpush %rbp\n\tmov %rsp,%rbp\n\tret\n"
+           "\t.section .text.second,\"ax\",@progbits\nsecond:\n\tpush %rbp\n\tmov %rsp,%rbp\n\tret\n")
+RANGE_LISTING = LISTING + "   a:\tff d0                \tcall   *%rax\n   c:\te8 ef ff ff ff       \tcall   0 <f>\n"
+RANGE_SRC = BIN_SRC + "\tcall *%rax\n\tcall f\n"
 PAIR_RULES = {
     "found": "pattern:\n- call\n",
     "many": "pattern:\n- p\n",
@@ -35,10 +58,13 @@ PAIR_RULES = {
     "fail": "pattern:\n- push\n- $or: []\n",
     "macro": "pattern:\n- '@x'\n- '@y'\n",
     "binfound": "pattern:\n- pop\n- pop\n- ret\n",
+    "dup": "pattern:\n- push\n- mov\n",
+    "range": "config:\n  valid_addr_range:\n    min: '0x0'\n    max: '0x100'\npattern:\n- call:\n  - valid_addr\n",
 }
 MACROS = {"m1": "macros:\n- name: '@x'\n  pattern: push\n- name: '@y'\n  pattern: call\n",
           "m2": "macros:\n- name: '@x'\n  pattern: pop\n- name: '@y'\n  pattern: ret\n"}
-LINE = re.compile(r" - INFO - (Matched address: .*|RESULT: Pattern (?:not )?found)$")
+# any line of the command's output that carries a result message, whatever handler / format printed it
+LINE = re.compile(r"(Matched address: .*|RESULT: Pattern (?:not )?found)$")
 
 
 def run(prop, tier):
@@ -63,13 +89,24 @@ def run(prop, tier):
     with open(text, "w") as f:
         f.write(LISTING)
     obj = objdump.assemble(BIN_SRC, "c20bin")
+    inputs = {"dup": (os.path.join(d, "dup.s"), objdump.assemble(DUP_SRC, "c20dup")),
+              "range": (os.path.join(d, "range.s"), objdump.assemble(RANGE_SRC, "c20range"))}
+    for k, t in (("dup", DUP_LISTING), ("range", RANGE_LISTING)):
+        with open(inputs[k][0], "w") as f:
+            f.write(t)
+
+    def text_of(inv):
+        return inputs.get(inv["pair"], (text, obj))[0]
+
+    def obj_of(inv):
+        return inputs.get(inv["pair"], (text, obj))[1]
 
     def argv_of(inv):
         a = []
         if inv["pat"] == "T":
             a += ["-p", files[inv["pair"]]]
         for s in sorted(inv["src"], reverse=True):     # -s before -b
-            a += (["-s", text] if s == "s" else ["-b", obj])
+            a += (["-s", text_of(inv)] if s == "s" else ["-b", obj_of(inv)])
         if inv["all"] == "T":
             a.append("--all-matches")
         if inv["addr"] == "T":
@@ -98,7 +135,7 @@ def run(prop, tier):
             continue
         r = {"id": len(rules), "yaml": PAIR_RULES[inv["pair"]], "macro_paths": [files[m] for m in inv["macros"]]}
         rules.append(r)
-        li = {"id": len(listings), "path": text if inv["src"] == ["s"] else obj, "binary": inv["src"] == ["b"]}
+        li = {"id": len(listings), "path": text_of(inv) if inv["src"] == ["s"] else obj_of(inv), "binary": inv["src"] == ["b"]}
         listings.append(li)
         pairs.append([len(rules) - 1, len(listings) - 1])
         where[n] = (len(rules) - 1, len(listings) - 1)
